@@ -126,6 +126,39 @@ example :
   · unfold Intervals.AllI64 Intervals.I64; decide
   · unfold Intervals.I64; decide
 
+/-- The block reader used by compaction (`blockBaseSeriesSet.Next` + `populateWithDelChunkSeriesIterator`)
+    on one well-formed series: it never errors or panics (in particular the transcribed `Intervals.Add`
+    calls for `trimFront`/`trimBack` and `bufIter.Intervals` never hit their panic branch), and the series is
+    either yielded with exactly its visible samples or not yielded, and then nothing was visible. -/
+theorem block_reader_exact (mint maxt : Int) (s : Series) (wf : SeriesWF s) (hr : RangeOK mint maxt) :
+    ∃ r, popSeries mint maxt s = .ok r ∧
+      (r.toList.map proj = if r.isSome then [(s.labels, visible mint maxt s)] else []) ∧
+      (r = none → visible mint maxt s = []) := by
+  obtain ⟨r, h1, h2, h3, _⟩ := popSeries_spec mint maxt s wf hr.1 hr.2
+  exact ⟨r, h1, h2, h3⟩
+
+/-- The concatenating merger does not keep the order of the sources: the merged set hands the series of
+    equal label sets to the merger in heap order, so two disjoint, time-sorted source blocks can come out
+    as "block 1 then block 0"; `index.Writer.AddSeries` then refuses the series and the compaction fails
+    (reproduced on the real code by suite `compact`). `storage.NewConcatenatingChunkSeriesMerger` documents
+    that its output "might be overlapping and unsorted"; Prometheus itself compacts with the compacting
+    merger only. -/
+theorem concat_merger_unsorted_witness :
+    (match compact .concat
+        [⟨0, 10, [⟨[("a", "1")], [Chunk.ofSamples [⟨1, .float, 1⟩]], []⟩, ⟨[("a", "2")], [Chunk.ofSamples [⟨2, .float, 2⟩]], []⟩]⟩,
+         ⟨10, 20, [⟨[("a", "2")], [Chunk.ofSamples [⟨12, .float, 3⟩]], []⟩]⟩] with
+     | .err => true | _ => false) = true := by
+  decide
+
+/-- the same two blocks under the default compacting merger: union of both, in order -/
+theorem compact_two_blocks_example :
+    (match compact .compact
+        [⟨0, 10, [⟨[("a", "1")], [Chunk.ofSamples [⟨1, .float, 1⟩]], []⟩, ⟨[("a", "2")], [Chunk.ofSamples [⟨2, .float, 2⟩]], []⟩]⟩,
+         ⟨10, 20, [⟨[("a", "2")], [Chunk.ofSamples [⟨12, .float, 3⟩]], []⟩]⟩] with
+     | .block o => some (o.series.map proj, o.stats) | _ => none) =
+      some ([([("a", "1")], [⟨1, .float, 1⟩]), ([("a", "2")], [⟨2, .float, 2⟩, ⟨12, .float, 3⟩])], ⟨2, 3, 3, 3, 0⟩) := by
+  decide
+
 /-! ### several sources: stated, not proved -/
 
 /-- the sorted, de-duplicated timestamps of a list of sample lists -/
